@@ -884,6 +884,11 @@ def find_replace(
         if not combined_match:
             continue
 
+        if any(value is None for value in combined_match):
+            # A wildcard stands for a piece of code, it does not match an absent optional field,
+            # like the value of a bare return statement.
+            continue
+
         ranges = [core.get_charnos(m[0], source) for m in matches]
         range_start = min(r[0] for r in ranges)
         range_end = max(r[1] for r in ranges)
